@@ -167,8 +167,10 @@ func genTokSeq(r *Rng, prefix string) (string, []wantTok) {
 		}
 	}
 	if rawPending != "" {
-		sb.WriteString("x</" + rawPending + ">")
-		want = append(want, wantTok{kind: html.TokenKindText, text: "x"}, wantTok{kind: html.TokenKindTag, text: "/" + rawPending})
+		// the close tag in the spelling of the writer's choice: the scanned name is the written one
+		cn := r.Pick([]string{rawPending, strings.ToUpper(rawPending), strings.ToUpper(rawPending[:1]) + rawPending[1:]})
+		sb.WriteString("x</" + cn + r.Pick([]string{"", "", " ", "\n"}) + ">")
+		want = append(want, wantTok{kind: html.TokenKindText, text: "x"}, wantTok{kind: html.TokenKindTag, text: "/" + cn})
 	}
 	return sb.String(), want
 }
